@@ -70,7 +70,6 @@ func (p *pool) newWorker(i int) *worker {
 	}}
 }
 
-
 // postMortem reads (and resets) what the dead worker wrote to stderr.
 func (w *worker) postMortem() (what, site string) {
 	b, _ := os.ReadFile(w.errFile)
